@@ -358,6 +358,44 @@ def one(rep, prog, cfg):
                           "when the queue is closed (last client handle dropped) and the loop never ends — the transport is not released and the event stream never ends"
                           % (tys or "nothing"))
     rep.floor("C08.error-flow", cfg + "/connection results with an error", n_err, 10)
+    # a clean close (receive -> Ok(None)) ends the loop: on that outcome nothing more is written or read and the function
+    # returns Err(()) — a `Ok(None) => ()` that falls through would write the next request to a peer that is gone
+    from ..cfg import VariantReach
+    n_none = 0
+    for f in res["fns"]:
+        co = an.coroutine_of(f)
+        if co is None:
+            continue
+        info = an.info(co)
+        results = []
+        for abb, (d, resl) in info.await_at.items():
+            if d is not None and d[0] == "conn" and d[1] == "receive" and resl is not None:
+                results.append(("receive", resl))
+        for op, site, resl in extra_results(co, info):
+            if op.startswith("param:"):
+                results.append((op, resl))
+        if not results:
+            continue
+        vr = VariantReach(co)
+        conn_ops = {bb for bb, t in co.calls() if any(n in (AC + "send", AC + "send_list", AC + "receive", AC + "command", AC + "command_list") for n in callee_names(t))}
+        ok_rets = {bb for bb, i, s2 in co.stmts() if s2["k"] == "assign" and s2["place"]["l"] == 0 and not s2["place"]["p"] and s2["rv"]["k"] == "agg"
+                   and s2["rv"].get("variant") == "Ok"}
+        for op, resl in results:
+            ty = co.local_ty(resl)
+            if "core::option::Option<" not in ty:
+                continue
+            defs = [bb for bb, i, s2 in co.stmts() if s2["k"] == "assign" and s2["place"]["l"] == resl and not s2["place"]["p"]]
+            if len(defs) != 1:
+                continue
+            n_none += 1
+            blocks = vr.blocks_after_def(defs[0], resl, ("Ok", "None"))
+            more = sorted(blocks & conn_ops)
+            goes_on = sorted(blocks & ok_rets)
+            rep.check(not more and not goes_on, "C08.close-terminal", "%s/%s clean close ends the loop (%s)" % (cfg, fn_name(prog, co), op),
+                      co.loc(co.blocks[defs[0]]["ts"]),
+                      "after receive() reported a clean close (Ok(None)) %s %s: the loop must stop there" % (
+                          fn_name(prog, co), "still performs a connection operation" if more else "can return Ok and continue"))
+    rep.floor("C08.close-terminal", cfg + "/receive results whose clean-close outcome is followed", n_none, 3)
     # the event receiver is optional (the user may drop ConnectionEvents): the Result of an event send must not steer the
     # loop — otherwise a dropped receiver ends the loop and the queued / in-flight request is answered with ConnectionClosed
     n_ev = 0
